@@ -1346,26 +1346,13 @@ pub fn types_campaign(ctx: &mut CheckCtx, prop: &str, tier: Tier, quick_n: u64) 
 	};
 	let pairs = types_pairs(prop);
 	let total = pairs.len();
-	match tier {
-		Tier::Quick => {
-			let seed = ctx.seed;
-			// proptest-driven sampling of the template product
-			let n = quick_n.min(total as u64);
-			ctx.search("types-sampled-pairs", n, 8, |bytes, want| {
-				let mut src = Src::new(bytes);
-				let hi = src.byte() as usize;
-				let lo = src.byte() as usize;
-				let mid = src.byte() as usize;
-				let idx = ((hi << 16 | mid << 8 | lo) as u64).wrapping_add(seed) as usize % total.max(1);
-				types_report(&tc, &pairs[idx], want)
-			});
-		}
-		Tier::Thorough => {
-			let items: Vec<usize> = (0..total).collect();
-			ctx.enumerate("types-full-product", items, |i, want| types_report(&tc, &pairs[*i], want));
-			ctx.exhaustive = Some(true);
-		}
-	}
+	// the product is small enough to be compiled completely in both tiers; the
+	// thorough tier adds the API-variant axis (see tyeng::variants)
+	let _ = quick_n;
+	let _ = tier;
+	let items: Vec<usize> = (0..total).collect();
+	ctx.enumerate("types-full-product", items, |i, want| types_report(&tc, &pairs[*i], want));
+	ctx.exhaustive = Some(true);
 	ctx.extra.insert("programs_in_product".into(), json!(total));
 	let ge = ctx.stats.labels.get("types.generator_error").copied().unwrap_or(0);
 	if ge * 50 > ctx.stats.evaluations.max(1) {
@@ -1382,8 +1369,8 @@ fn types_check(prop: &'static str, tier: Tier, seed: u64) -> i32 {
 		"the rlib used is the one the check script just rebuilt from /repo's working tree".into(),
 	];
 	ctx.rule = match prop {
-		"C14" => "TYPES: client programs generated from a grammar (lock kind x Poisonable x collection kind x container x escape route K1..K11: key moved/lent to another thread, locking through &ThreadKey, clone/copy/use-after-move, key forgery (struct literal, Keyable impls, sealed path), guard APIs given &mut key, nested scoped calls on one key, key used inside its own closure, private key fields of guards, sending key-holding guards, moving holds out of a collection guard before unlock, key-less holds through unsafe trait methods from safe code). Every case is a pair: a twin that must compile and an offending program that differs only inside the marked region; verdict by rustc against the current tree: twin accepted, offending rejected with every primary error span inside the marked region. Quick: proptest-sampled pairs; thorough: the full product. Non-trivial = the twin compiled and the offending program got a verdict; distinct = (family, subject).".to_string(),
-		_ => "TYPES: client programs generated from a grammar (lock kind x Poisonable x collection kind x container x route D1..D8: reference outliving a guard, guard outliving its lock, reference escaping a scoped closure, shared access into an owned collection, unsafe-only entry points from safe code, &mut/by-value access while a guard lives, auto traits). D1-D7 are twin/offending pairs judged by rustc on the marked region. D8 is differential against std: for every position (Mutex, RwLock, Poisonable, every guard and ref type, every collection over owned and borrowed members, LockGuard, PoisonGuard, ...) x payload (i32, Cell, Rc, raw pointer, MutexGuard, Arc<Cell>) x {Send, Sync}, whenever the std counterpart is rejected the happylock type must be rejected too. Quick: proptest-sampled pairs; thorough: the full product. Non-trivial = the twin compiled and the offending program got a verdict (for D8: std rejected); distinct = (family, subject).".to_string(),
+		"C14" => "TYPES: client programs generated from a grammar (lock kind x Poisonable x collection kind x container x escape route K1..K11: key moved/lent to another thread, locking through &ThreadKey, clone/copy/use-after-move, key forgery (struct literal, Keyable impls, sealed path), guard APIs given &mut key, nested scoped calls on one key, key used inside its own closure, private key fields of guards, sending key-holding guards, moving holds out of a collection guard before unlock, key-less holds through unsafe trait methods from safe code). Every case is a pair: a twin that must compile and an offending program that differs only inside the marked region; verdict by rustc against the current tree: twin accepted, offending rejected with every primary error span inside the marked region. The whole product of the grammar is compiled in both tiers. Non-trivial = the twin compiled and the offending program got a verdict; distinct = (family, subject).".to_string(),
+		_ => "TYPES: client programs generated from a grammar (lock kind x Poisonable x collection kind x container x route D1..D8: reference outliving a guard, guard outliving its lock, reference escaping a scoped closure, shared access into an owned collection, unsafe-only entry points from safe code, &mut/by-value access while a guard lives, auto traits). D1-D7 are twin/offending pairs judged by rustc on the marked region. D8 is differential against std: for every position (Mutex, RwLock, Poisonable, every guard and ref type, every collection over owned and borrowed members, LockGuard, PoisonGuard, ...) x payload (i32, Cell, Rc, raw pointer, MutexGuard, Arc<Cell>) x {Send, Sync}, whenever the std counterpart is rejected the happylock type must be rejected too. The whole product of the grammar is compiled in both tiers. Non-trivial = the twin compiled and the offending program got a verdict (for D8: std rejected); distinct = (family, subject).".to_string(),
 	};
 	let quick_n = 320;
 	types_campaign(&mut ctx, prop, tier, quick_n);
@@ -1560,6 +1547,8 @@ pub fn seq_profile(prop: &str) -> Option<(SeqCfg, Opts)> {
 			cfg.w.phantom_hold = 4;
 			cfg.w.p_panic = 30;
 			cfg.w.p_forget_guard = 10;
+			cfg.w.debug = 3;
+			cfg.w.p_debug_in_body = 50;
 			let opts = Opts::default();
 			Some((cfg, opts))
 		}
